@@ -38,6 +38,15 @@ func (fr *Frame) execCall(v ssa.Value, c *ssa.CallCommon, st *State, alive *Term
 			if err != nil {
 				panic(&exprError{err.Error()})
 			}
+			if ac.Kind == "snapshot_after" {
+				name, _, _ := strings.Cut(ac.Label, ":")
+				fr.env0.vars[name] = fr.vc.define("snap_"+name, t)
+				continue
+			}
+			if ac.Kind == "assert_after" {
+				fr.vc.oblige(fmt.Sprintf("after:%s[%s]", fr.ord(in), ac.Label), "assert", ac.Props, fr.vc.pos(in.Pos()), out, t, ac.Expr)
+				continue
+			}
 			fr.vc.assume(Implies(out, t))
 			fr.vc.explicitAssumes = append(fr.vc.explicitAssumes, fmt.Sprintf("%s after %s: %s [%s]", fr.vc.fnName(), fr.ord(in), ac.Expr, ac.Label))
 		}
@@ -341,6 +350,17 @@ func (fr *Frame) applyContract(v ssa.Value, ct *Contract, name string, c *ssa.Ca
 			}
 		}
 	}
+	// names the callee's contract gives to intermediate states (snapshot_after) are existentially quantified for the caller
+	for _, sn := range ct.AssumeAfter {
+		if sn.Kind != "snapshot_after" {
+			continue
+		}
+		name, sortName, ok := strings.Cut(sn.Label, ":")
+		if !ok {
+			panic(&exprError{sn.Line + ": snapshot_after needs NAME:SORT so that callers can quantify it"})
+		}
+		penv.vars[name] = vc.fresh("ex_"+name, parseSort(sortName))
+	}
 	for _, l := range ct.PostLocals {
 		e2 := *penv
 		e2.where = l.Line
@@ -363,6 +383,25 @@ func (fr *Frame) applyContract(v ssa.Value, ct *Contract, name string, c *ssa.Ca
 			panic(&exprError{fmt.Sprintf("%s: sets %s: sort %s, want %s", s.Line, s.Var, t.Sort, g.compSort(comp))})
 		}
 		post.Set(comp, vc.define(compSym(comp), t))
+	}
+	// 3b. atoms defined by the callee: the defining formula was proved in the callee's own VC; the caller learns
+	// both the formula (over this call's pre/post state) and the time-independent atom
+	for _, d := range ct.Defines {
+		e2 := *penv
+		e2.where = d.Line
+		f, err := e2.Parse(d.Expr)
+		if err != nil {
+			panic(&exprError{err.Error()})
+		}
+		a, err := e2.Parse(d.Var)
+		if err != nil {
+			panic(&exprError{err.Error()})
+		}
+		if f.Op == "=>" && len(f.Args) == 2 {
+			// conditional definition: the atom is known only under the condition of its defining formula
+			a = Implies(f.Args[0], a)
+		}
+		vc.assume(Implies(alive, And(f, a)))
 	}
 	// 4. postconditions
 	for _, e := range append(append([]*Clause{}, ct.Ensures...), ct.TrustedEns...) {
